@@ -29,7 +29,7 @@ UNITS += [
 ]
 UNITS += [
   Unit("blk_preextrapolate", ["C04"], "lib/block.c", enforce="_preextrapolate_helper", loops="block_ana.loops", harness="h_blk_preextra.c", entry="h_blk_preextra",
-       replace=["vorbis_lpc_from_data", "vorbis_lpc_predict"], unwindset=["h_blk_preextra.0:3", "_preextrapolate_helper.2:3"], reach=2, timeout=600, objbits=8,
+       replace=["vorbis_lpc_from_data", "vorbis_lpc_predict"], unwindset=["h_blk_preextra.0:3", "_preextrapolate_helper.2:3"], reach=2, timeout=1800, objbits=8, tier="thorough",
        assumed=["channels <= 2; lpc.c functions by contract (ranges read/written only; float values not used)", "stack budget 1 MiB per alloca request (contracts/common.h)"],
        note="start-of-stream extrapolation for ANY amount of submitted audio (up to 2^28 samples): scratch memory request within the stack budget, lpc ranges inside the buffers, the one-shot flag always set, marks unchanged"),
 ]
